@@ -810,6 +810,13 @@ class Ev:
                 self.block(st.finalbody, env, func)
         elif isinstance(st, (ast.FunctionDef,)):
             nested = func.nested.get(st.name) if func is not None else None
+            if nested is not None and nested.node is not st:
+                # two defs of one name in different branches: the loader's table keeps the last; this statement is its own function
+                key = id(st)
+                cache = self.__dict__.setdefault("_defs_by_node", {})
+                if key not in cache:
+                    cache[key] = Func(nested.mod, "%s@%d" % (nested.qual, st.lineno), st, cls=None, outer=nested.outer)
+                nested = cache[key]
             if nested is None:
                 raise Undecided("nested def %s" % st.name)
             env[st.name] = FuncRef(self, nested, closure=env)
